@@ -178,7 +178,12 @@ _EXTRA = {
     "C05": " The usefulness-criterion helper _calc_uc is proved (bounded shapes, all values) to be sum_k epgc_k*bv[parent_k] + intensity*sqrt(var[cross]) with the "
            "variance factory's own, possibly unequal, expected parental contributions for 2-, 3- and 4-parent designs.",
     "C06": " SteepestDescentSubsetHillClimber.minimize is executed with an independent symbolic objective value and constraint violation per subset (<=4 candidates, "
-           "thorough 5): it terminates, stops only where no single exchange improves (violation first, then score), never ends worse than it started, reports truthful values.",
+           "thorough 5): it terminates, stops only where no single exchange improves (violation first, then score), never ends worse than it started, reports truthful values; "
+           "the sorting variant (start = k best single members) likewise for <=3 candidates (thorough 4).",
+    "C07": " sample_xconfig of all eight configuration classes is executed with recording stand-ins for the sampling subroutines (used through their C17 "
+           "contracts): the right sampler gets the right option set (the subset / each index repeated by its count) or weights, replacement off, the "
+           "requested shape and the configuration's own generator, followed by outcross_shuffle and axis_shuffle(axis 0) (or generator shuffle and cross-map "
+           "lookup for mate encodings) on the same array, which is stored and returned.",
     "C08": " Copy methods of stochastic components that mention rng are executed on a source whose rng is global_prng with cloning stand-ins for copy/deepcopy: the copy "
            "must be handed global_prng itself (a clone would not follow prng.seed).",
     "C09": " The float-exactness enumeration also visits sparse very large populations (up to 2e6 taxa, thorough 6e7) where a frequency one copy away from 0 or 1 is "
